@@ -996,6 +996,38 @@ func (h *harness) step(line string) (event, error) {
 	case "deltag":
 		err := h.mgr.DelTag(f[1])
 		ev["name"], ev["res"] = f[1], errClass(err)
+	case "config", "webhook", "endpoint":
+		// settings and endpoints (C12: they survive a restart); not part of the service-loop model
+		var err error
+		switch f[0] {
+		case "config":
+			err = h.mgr.SetConfig(manager.Config{AutoInsertLimitToQuery: f[1] == "1"})
+		case "webhook":
+			if f[1] == "add" {
+				err = h.mgr.AddPcapProcessorWebhook(f[2])
+			} else {
+				err = h.mgr.DelPcapProcessorWebhook(f[2])
+			}
+		default:
+			if f[1] == "add" {
+				err = h.mgr.AddPcapOverIPEndpoint(f[2])
+			} else {
+				err = h.mgr.DelPcapOverIPEndpoint(f[2])
+			}
+		}
+		ev["res"], ev["noop"] = errClass(err), true
+	case "vdata":
+		// on-demand conversion through a view (StreamContext.Data): the output is cached for ANY converter,
+		// attached to a tag or not. Not part of the service-loop model (oracle-only stage of C16).
+		id, _ := strconv.ParseUint(f[1], 10, 64)
+		v := h.mgr.GetView()
+		if sc, err := v.Stream(id); err == nil && sc.Stream() != nil {
+			_, err := sc.Data(f[2])
+			ev["res"] = errClass(err)
+		}
+		v.Release()
+		h.mgr.VerifDump()
+		ev["noop"] = true
 	case "vopen":
 		k, _ := strconv.Atoi(f[1])
 		ev["k"] = k
@@ -1180,7 +1212,7 @@ func (h *harness) runScenario(in io.Reader, out io.Writer) error {
 			w.Flush()
 			return err
 		}
-		if ev["noop"] == nil {
+		if ev["noop"] == nil || ev["op"] == "vdata" {
 			h.checkOracles(h.prev)
 			h.prev = h.mgr.VerifDump()
 		}
@@ -1365,6 +1397,7 @@ func (g *genWorld) genDef(self string, wild bool) (string, *genTag) {
 }
 
 var genCrash = false
+var genOnDemand = false
 
 func gen(seed uint64, n int, w io.Writer) {
 	r := lib.NewRNG(seed)
@@ -1422,6 +1455,9 @@ func gen(seed uint64, n int, w io.Writer) {
 					parts[i] = strings.Join(y, ":")
 				}
 			}
+		}
+		if r.Chance(1, 12) {
+			parts = nil // a capture with a valid header and no packets (an idle rotation interval)
 		}
 		fmt.Fprintf(w, "pcap %s %s\n", name, strings.Join(parts, " "))
 		pending = append(pending, name)
@@ -1483,6 +1519,19 @@ func gen(seed uint64, n int, w io.Writer) {
 		clock = 1000
 	}
 	for i := 0; i < n; i++ {
+		if genCrash && r.Chance(1, 8) {
+			switch r.Intn(3) {
+			case 0:
+				fmt.Fprintf(w, "config %d\n", r.Intn(2))
+			case 1:
+				fmt.Fprintf(w, "webhook %s http://127.0.0.1:9/hook%d\n", lib.Pick(r, []string{"add", "add", "del"}), r.Intn(3))
+			default:
+				fmt.Fprintf(w, "endpoint %s 127.0.0.1:%d\n", lib.Pick(r, []string{"add", "add", "del"}), 9+r.Intn(3))
+			}
+		}
+		if genOnDemand && r.Chance(1, 4) {
+			fmt.Fprintf(w, "vdata %d conv1\n", streamID())
+		}
 		if genCrash && r.Chance(1, 5) {
 			fmt.Fprintf(w, "crashcheck %d\n", lib.Pick(r, []int{0, 0, 0, r.Intn(24) + 1, r.Intn(24) + 1}))
 		}
@@ -1621,11 +1670,13 @@ func main() {
 	keep := fs.String("dir", "", "data directory (default: temp dir removed at exit)")
 	verbose := fs.Bool("v", false, "keep the service's log output")
 	crash := fs.Bool("crash", false, "gen: insert crashcheck ops")
+	ondemand := fs.Bool("ondemand", false, "gen: insert on-demand conversions through a view (vdata)")
 	free := fs.Int("free", -1, "gen: K gated ops, then `free` and -n free-running ops (property C20)")
 	fs.Parse(os.Args[2:])
 	switch os.Args[1] {
 	case "gen":
 		genCrash = *crash
+		genOnDemand = *ondemand
 		w := bufio.NewWriter(os.Stdout)
 		if *free >= 0 {
 			genFree(*seed, *n, *free, w)
